@@ -70,6 +70,9 @@ Ltac prim_cases :=
 
 Ltac fin :=
   repeat match goal with
+         | H : _ && _ = true |- _ => apply andb_true_iff in H; destruct H
+         end;
+  repeat match goal with
          | H : negb _ = false |- _ => apply negb_false_iff in H
          | H : negb _ = true |- _ => apply negb_true_iff in H
          end;
@@ -84,7 +87,7 @@ Definition opened_w (w : world) : Prop := opened (w_conn w) = true.
 
 Lemma prim_opened : forall B (p : prim B) w, opened_w w -> opened_w (snd (run_prim p w)).
 Proof.
-  intros B p w H. unfold opened_w in *. destruct p; prim_cases; auto; congruence.
+  intros B p w H. unfold opened_w in *. destruct p; prim_cases; auto; fin.
 Qed.
 
 (* Q: a smtp.Client that is not connected has no open transport *)
@@ -93,7 +96,7 @@ Definition Qinv (w : world) : Prop :=
 
 Lemma prim_Q : forall B (p : prim B) w, Qinv w -> Qinv (snd (run_prim p w)).
 Proof.
-  intros B p w [H1 H2]. unfold Qinv in *. destruct p; prim_cases; split; auto; try congruence; intros; try discriminate.
+  intros B p w [H1 H2]. unfold Qinv in *. destruct p; prim_cases; split; auto; try congruence; intros; try discriminate; fin.
 Qed.
 
 (* a closed transport stays closed *)
@@ -101,7 +104,7 @@ Definition Closed (w : world) : Prop := opened (w_conn w) = true /\ copen (w_con
 
 Lemma prim_closed : forall B (p : prim B) w, Closed w -> Closed (snd (run_prim p w)).
 Proof.
-  intros B p w [H1 H2]. unfold Closed in *. destruct p; prim_cases; split; auto; congruence.
+  intros B p w [H1 H2]. unfold Closed in *. destruct p; prim_cases; split; auto; fin.
 Qed.
 
 (* J: nothing blocked so far and an open transport has a deadline *)
@@ -129,7 +132,17 @@ Qed.
 (* ------------------------------------------------------------------------------------------------ *)
 (* C19: closing *)
 
+Lemma do_close_copen : forall w, copen (w_conn (do_close w)) = false.
+Proof. intros w. unfold do_close. destruct (ctls (w_conn w) && negb (copen (w_conn w))) eqn:E; simpl; auto. fin. Qed.
+Lemma do_close_opened : forall w, opened (w_conn (do_close w)) = opened (w_conn w).
+Proof. intros w. unfold do_close. destruct (ctls (w_conn w) && negb (copen (w_conn w))); reflexivity. Qed.
+Lemma do_close_last_cmd : forall w, last_cmd (w_trace (do_close w)) = last_cmd (w_trace w).
+Proof. intros w. unfold do_close. destruct (ctls (w_conn w) && negb (copen (w_conn w))); reflexivity. Qed.
+Lemma do_close_cs : forall w, w_cs (do_close w) = w_cs w.
+Proof. intros w. unfold do_close. destruct (ctls (w_conn w) && negb (copen (w_conn w))); reflexivity. Qed.
+
 Arguments run_prim : simpl never.
+Arguments do_close : simpl never.
 Arguments cmd : simpl never.
 Arguments ehlo : simpl never.
 Arguments helo : simpl never.
@@ -168,7 +181,7 @@ Proof.
   destruct (run_prim PRead w) as [b w1] eqn:E1.
   destruct (classify 220 b) as [rp | e]; simpl in H.
   - destruct ssl; simpl in H; unfold run_prim in H; simpl in H; inversion H; subst; reflexivity.
-  - unfold run_prim in H; simpl in H. inversion H; subst. reflexivity.
+  - unfold run_prim in H; simpl in H. inversion H; subst. apply do_close_copen.
 Qed.
 
 Lemma close_failed_closed : forall cfg w, fx_close cfg = true -> Qinv w ->
@@ -176,7 +189,7 @@ Lemma close_failed_closed : forall cfg w, fx_close cfg = true -> Qinv w ->
 Proof.
   intros cfg w Hf [H1 H2]. unfold close_failed. rewrite Hf. unfold prim1. simpl.
   destruct (connected (w_cs w)) eqn:Ec; simpl; unfold run_prim; simpl.
-  - split; [exact H1 | reflexivity].
+  - unfold Closed; simpl. split; [rewrite do_close_opened; exact H1 | apply do_close_copen].
   - split; [exact H1 | auto].
 Qed.
 
@@ -367,18 +380,55 @@ Lemma sat_rcpts : forall n bad, sat (Pw send_verb) _ (rcpts n bad).
 Proof. induction n; intros; simpl; sat_tac. Qed.
 #[export] Hint Resolve sat_rcpts : satdb.
 
-Lemma sat_send_single : forall cfg n, sat (Pw send_verb) _ (send_single cfg n).
-Proof. intros. unfold send_single. sat_tac. Qed.
-#[export] Hint Resolve sat_send_single : satdb.
-
-Lemma sat_send_msgs : forall cfg msgs bad, sat (Pw send_verb) _ (send_msgs cfg msgs bad).
-Proof. induction msgs; intros; simpl; sat_tac. Qed.
-#[export] Hint Resolve sat_send_msgs : satdb.
-
 (* primitives in Pw keep the smtp.Client connected *)
 Lemma prim_connected : forall S B (p : prim B) w, Pw S B p = true ->
   connected (w_cs w) = true -> connected (w_cs (snd (run_prim p w))) = true.
 Proof. intros S B p w HP H. destruct p; simpl in HP; try discriminate; prim_cases; auto. Qed.
+
+Ltac conn_of lem E Hc :=
+  let H := fresh "HC" in
+  match type of E with
+  | run ?m ?w = (_, ?w1) =>
+      pose proof (sat_run_inv _ (fun w => connected (w_cs w) = true) (prim_connected send_verb) _ m lem w Hc) as H;
+      rewrite E in H; simpl in H
+  end.
+
+Lemma send_single_ok_connected : forall cfg n w u w', connected (w_cs w) = true ->
+  run (send_single cfg n) w = (Ok u, w') -> connected (w_cs w') = true.
+Proof.
+  intros cfg n w u w' Hc H. unfold send_single in H.
+  sx H. conn_of (sat_cmd send_verb 250 VMail eq_refl) E Hc.
+  destruct a as [rp | e].
+  2:{ sx H. sx H. simpl in H. discriminate. }
+  sx H. conn_of (sat_rcpts n false) E0 HC.
+  destruct a.
+  { sx H. sx H. simpl in H. discriminate. }
+  sx H. conn_of (sat_cmd send_verb 354 VData eq_refl) E1 HC0.
+  destruct a as [rp2 | e].
+  2:{ destruct (fx_send cfg); [ sx H; sx H; simpl in H; discriminate | simpl in H; discriminate ]. }
+  sx H. conn_of (sat_prim1 (Pw send_verb) _ (PWrite VEod) eq_refl) E2 HC1.
+  sx H. conn_of (sat_prim1 (Pw send_verb) _ PRead eq_refl) E3 HC2.
+  destruct (classify 250 a0); [ | simpl in H; discriminate ].
+  sx H. conn_of (sat_reset_client cfg) E4 HC3.
+  simpl in H. destruct a1; inversion H; subst. exact HC4.
+Qed.
+
+Lemma send_msgs_bad_true : forall cfg msgs w b w', run (send_msgs cfg msgs true) w = (b, w') -> b = true.
+Proof.
+  induction msgs as [ | n t IH]; intros w b w' H; cbn [send_msgs] in H.
+  - simpl in H. inversion H; reflexivity.
+  - sx H. destruct a; eapply IH; exact H.
+Qed.
+
+Lemma send_msgs_connected : forall cfg msgs w w', connected (w_cs w) = true ->
+  run (send_msgs cfg msgs false) w = (false, w') -> connected (w_cs w') = true.
+Proof.
+  induction msgs as [ | n t IH]; intros w w' Hc H; cbn [send_msgs] in H.
+  - simpl in H. inversion H; subst. exact Hc.
+  - sx H. destruct a as [u | e].
+    + apply (IH w0 w'); [ eapply send_single_ok_connected; eauto | exact H ].
+    + apply send_msgs_bad_true in H. discriminate.
+Qed.
 
 Lemma send_batch_connected : forall cfg msgs w u w', run (send_batch cfg msgs) w = (Ok u, w') ->
   connected (w_cs w') = true.
@@ -388,11 +438,9 @@ Proof.
   { unfold check_conn in H. rewrite run_bind in H. unfold prim1 in H. simpl in H.
     destruct (connected (w_cs w)); [reflexivity | simpl in H; discriminate]. }
   sx H. destruct a; [ | simpl in H; discriminate ].
-  pose proof (sat_run_inv _ (fun w => connected (w_cs w) = true) (prim_connected send_verb) _ _ (sat_check_conn cfg) w Hc) as H1.
-  rewrite E in H1. simpl in H1.
-  sx H.
-  pose proof (sat_run_inv _ (fun w => connected (w_cs w) = true) (prim_connected send_verb) _ _ (sat_send_msgs cfg msgs false) w0 H1) as H2.
-  rewrite E0 in H2. simpl in H2. simpl in H. destruct a; inversion H; subst. exact H2.
+  conn_of (sat_check_conn cfg) E Hc.
+  sx H. simpl in H. match goal with b : bool |- _ => destruct b end; inversion H; subst.
+  eapply send_msgs_connected; eauto.
 Qed.
 
 Lemma run_get : forall A (k : cstate -> prog A) w, run (bind (prim1 PGetCs) k) w = run (k (w_cs w)) w.
@@ -430,7 +478,8 @@ Proof.
   intros w u w' H. unfold quit in H.
   sx H. sx H. destruct a0 as [rp | e]; [ | simpl in H; discriminate ].
   pose proof (cmd_ok_last _ _ _ _ _ E0) as Hl.
-  unfold prim1 in H. simpl in H. unfold run_prim in H. simpl in H. inversion H; subst. simpl. auto.
+  unfold prim1 in H. simpl in H. unfold run_prim in H. simpl in H. inversion H; subst. simpl.
+  rewrite do_close_copen, do_close_last_cmd. auto.
 Qed.
 
 (* CloseWithSMTPClient *)
@@ -451,7 +500,7 @@ Proof.
     rewrite run_get in E1.
     destruct HI0 as [O1 O2].
     destruct (connected (w_cs w1)) eqn:Ec1; simpl in E1; unfold run_prim in E1; simpl in E1; inversion E1; subst; simpl.
-    + split; auto.
+    + unfold Closed; simpl. split; [rewrite do_close_opened; auto | apply do_close_copen].
     + split; auto.
 Qed.
 
